@@ -88,6 +88,13 @@ def injections(ver, o, rng):
             oo = copy.deepcopy(o)
             corrupt.get(oo, s.path)["x-unregistered-ext"] = {"some_prop": 1}
             yield "unregistered-extension", s.section, oo
+            # the name of a type registered in another category (a marking, an object) is no extension type either, even with a body that
+            # class would take
+            for key2, body2 in (("statement", {"statement": "s"}), ("tlp", {"tlp": "white"}),
+                                ("external-reference", {"source_name": "s", "url": "u"}), ("identity", {"name": "n"}) if ver == "2.1" else ("identity", {"name": "n", "identity_class": "individual"})):
+                oo = copy.deepcopy(o)
+                corrupt.get(oo, s.path)[key2] = body2
+                yield "unregistered-extension:name-of-another-category", s.section, oo
             # a registered extension's name in another letter case (or with blanks around it) is another, unregistered, name
             for key_, body in list(v.items())[:1]:
                 for lab, respelt in (("other-letter-case", key_.title() if key_.title() != key_ else key_.upper()), ("upper-case", key_.upper()), ("padded", key_ + " ")):
